@@ -24,12 +24,22 @@ FILES = {
     'webvtt': ('webvtt.mp4', None, {}),
     'seg1': ('seg1.mp4', None, {}),
     'tseg': ('bbb/bbb_t1.mp4', 'segment:1', {}),
+    # derived fixtures: a structural variant produced from a fixture by the library's own encoder
+    'tseg-tfdt-v0': ('bbb/bbb_t1.mp4', 'segment:1', {}, 'tfdt-v0'),
+    'tseg-tfhd-both': ('bbb/bbb_t1.mp4', 'segment:1', {}, 'tfhd-both'),
+    'tseg-tfhd-all': ('bbb/bbb_t1.mp4', 'segment:1', {}, 'tfhd-all'),
+    'tseg-trun-all': ('bbb/bbb_t1.mp4', 'segment:1', {}, 'trun-all'),
+    'tseg-trun-first': ('bbb/bbb_t1.mp4', 'segment:1', {}, 'trun-first'),
+    'moov-v1': ('moov.mp4', None, {}, 'headers-v1'),
+    'emsg-boxes': ('moov.mp4', None, {}, 'emsg-boxes'),
     'aseg': ('bbb/bbb_a1.mp4', 'segment:1', {}),
     'emsg': ('emsg.mp4', None, {}),
     'bbb_v7': ('bbb/bbb_v7.mp4', None, {}),
     'bbb_a1_enc': ('bbb/bbb_a1_enc.mp4', None, {'iv_size': 8}),
 }
-Q_FILES = ['moov', 'enc-moov', 'hevc-moov', 'eac3-moov', 'ebuttd', 'webvtt', 'tseg', 'aseg']
+Q_FILES = ['moov', 'enc-moov', 'hevc-moov', 'eac3-moov', 'ebuttd', 'webvtt', 'tseg', 'aseg',
+           'tseg-tfdt-v0', 'tseg-tfhd-both', 'tseg-tfhd-all', 'tseg-trun-all', 'tseg-trun-first', 'moov-v1',
+           'emsg-boxes']
 MAX_SYMBOLIC = 1500       # symbolic bytes per file (the first N content bytes; mdat tails stay concrete)
 
 ASSUMPTIONS = [
@@ -48,6 +58,83 @@ def bounds(tier):
 
 def OBLIGATIONS(tier):
     return ['C04.f2b2f', 'C04.b2f2b', 'C04.lazy', 'C04.json', 'C04.size', 'C04.exc']
+
+
+def _derive(data, kw, transform):
+    """structural variant of a fixture, produced by the library's own encoder (same code in the
+    symbolic and in the replay process)"""
+    import io
+    import sys
+    from dashlive.mpeg import mp4
+    if 'pysx.loader' in sys.modules:
+        from pysx import iomodel
+        src = iomodel.SxBufferedReader(iomodel.SxBytesIO(data))
+    else:
+        src = io.BufferedReader(io.BytesIO(data))
+    t = mp4.Mp4Atom.load(src, options=mp4.Options(mode='r', lazy_load=False, **kw), use_wrapper=True)
+    put = object.__setattr__
+    if transform == 'tfdt-v0':
+        tfdt = t.moof.traf.tfdt
+        put(tfdt, 'version', 0)
+        put(tfdt, 'base_media_decode_time', 12345)
+    elif transform in ('tfhd-both', 'tfhd-all'):
+        tfhd = t.moof.traf.tfhd
+        flags = tfhd.flags | 0x000001
+        if transform == 'tfhd-all':
+            flags |= 0x02 | 0x08 | 0x10 | 0x20
+            put(tfhd, 'sample_description_index', 1)
+            put(tfhd, 'default_sample_duration', tfhd.default_sample_duration or 1000)
+            put(tfhd, 'default_sample_size', tfhd.default_sample_size or 17)
+            put(tfhd, 'default_sample_flags', tfhd.default_sample_flags or 0x10000)
+        put(tfhd, 'flags', flags)
+        put(tfhd, 'base_data_offset', 0)
+    elif transform == 'trun-all':
+        trun = t.moof.traf.trun
+        # per-sample duration, size, flags and composition offset (first-sample-flags must not be
+        # combined with per-sample flags, ISO/IEC 14496-12 8.8.8)
+        put(trun, 'flags', trun.flags | 0x100 | 0x200 | 0x400 | 0x800)
+        for i, s in enumerate(trun.samples):
+            for nm, v in (('duration', 1000 + i), ('size', getattr(s, 'size', 0) or 10), ('flags', 0x10000 + i),
+                          ('composition_time_offset', 3 * i)):
+                if getattr(s, nm, None) is None:
+                    s.add_field(nm, v)
+            put(s, 'parent', trun)
+    elif transform == 'trun-first':
+        trun = t.moof.traf.trun
+        put(trun, 'flags', (trun.flags | 0x4) & ~0x400)
+        put(trun, 'first_sample_flags', 0x2000000)
+    elif transform == 'headers-v1':
+        for box in (t.moov.mvhd, t.moov.trak.tkhd, t.moov.trak.mdia.mdhd, t.sidx):
+            put(box, 'version', 1)
+    elif transform == 'emsg-boxes':
+        boxes = []
+        for ver in (0, 1):
+            kw2 = dict(version=ver, flags=0, scheme_id_uri='urn:example:2024', value='v%d' % ver, timescale=1000,
+                       event_duration=200, event_id=7 + ver, data=b'payload%d' % ver)
+            if ver == 0:
+                kw2['presentation_time_delta'] = 33
+            else:
+                kw2['presentation_time'] = 1 << 34
+            boxes.append(mp4.EventMessageBox(**kw2))
+        return b''.join(b.encode() for b in boxes)
+    else:
+        raise KeyError(transform)
+    return t.encode()
+
+
+_FILE_BYTES = {}
+
+
+def file_bytes(name):
+    """bytes of a (possibly derived) fixture"""
+    hit = _FILE_BYTES.get(name)
+    if hit is None:
+        spec = FILES[name]
+        hit = mkx.fixture_bytes(spec[0], spec[1])
+        if len(spec) > 3 and spec[3]:
+            hit = bytes(_derive(hit, spec[2], spec[3]))
+        _FILE_BYTES[name] = hit
+    return hit
 
 
 def _options(kw, mode='r', lazy=False):
@@ -126,8 +213,8 @@ def _candidate_ranges(data):
 
 
 def _sym_file(sx, name, with_json=False):
-    fixture, limit, kw = FILES[name]
-    data = mkx.fixture_bytes(fixture, limit)
+    kw = FILES[name][2]
+    data = file_bytes(name)
     skip = _candidate_ranges(data)
     structural = mkx.discover_structural((name, with_json), data, _pipeline(kw, with_json), skip_ranges=skip)
     buf, symidx = mkx.symbolise(sx, data, structural, max_symbolic=MAX_SYMBOLIC, skip_ranges=skip)
@@ -224,6 +311,8 @@ EDITS = {
     # name -> (file, description)
     'moof.mfhd.seq': ('tseg', 'assign mfhd.sequence_number'),
     'moof.tfdt.time': ('tseg', 'assign tfdt.base_media_decode_time (32 -> 64 bit growth included)'),
+    'moof.tfdt-v0.time': ('tseg-tfdt-v0', 'assign tfdt.base_media_decode_time on a version 0 box (32 -> 64 bit growth)'),
+    'moov.mvhd.duration': ('moov', 'assign mvhd.duration (32 -> 64 bit growth)'),
     'moof.remove-tfdt': ('tseg', 'remove traf.tfdt'),
     'moof.insert-tfdt': ('tseg', 'remove then insert a fresh tfdt after tfhd'),
     'root.del-sidx': ('aseg', 'del wrapper.sidx'),
@@ -276,8 +365,8 @@ def h_edit(sx, edit, lazy):
     from dashlive.mpeg import mp4
     from pysx.core import sx_and
     fname, _ = EDITS[edit]
-    fixture, limit, kw = FILES[fname]
-    data = mkx.fixture_bytes(fixture, limit)
+    kw = FILES[fname][2]
+    data = file_bytes(fname)
 
     def ops(d):
         t = _load(d, kw, 'rw', lazy)
@@ -340,7 +429,20 @@ def _apply_edit(sx, t, edit, concrete):
         t.moof.mfhd.sequence_number = v
         checks.append(lambda root, out, orig: mk.read_mfhd(root.find('moof.mfhd')) == v)
         checks += [same_box('mdat'), same_box('moof.traf.trun') if False else (lambda r, o, g: True)]
-    elif edit == 'moof.tfdt.time':
+    elif edit == 'moov.mvhd.duration':
+        v = sym('time', 0, 2 ** 64 - 1, 1 << 33)
+        t.moov.mvhd.duration = v
+
+        def chk(root, out, orig):
+            b = root.find('moov.mvhd')
+            ver = mk._u(out, b.start + 8, 1)
+            p = b.start + 12
+            if ver == 1:
+                return mk._u(out, p + 8 + 8 + 4, 8) == v
+            return mk._u(out, p + 4 + 4 + 4, 4) == v
+        checks.append(chk)
+        checks.append(same_box('moov.trak'))
+    elif edit in ('moof.tfdt.time', 'moof.tfdt-v0.time'):
         v = sym('time', 0, 2 ** 64 - 1, 1 << 33)
         t.moof.traf.tfdt.base_media_decode_time = v
         checks.append(lambda root, out, orig: mk.read_tfdt(root.find('moof.traf.tfdt'))[1] == v)
@@ -472,8 +574,8 @@ def instances(tier):
 # concrete side
 
 def _concrete_bytes(name_or_file, inputs, prefix='b'):
-    fixture, limit, kw = FILES[name_or_file]
-    data = bytearray(mkx.fixture_bytes(fixture, limit))
+    kw = FILES[name_or_file][2]
+    data = bytearray(file_bytes(name_or_file))
     for k, v in inputs.items():
         if k.startswith(prefix + '['):
             data[int(k[len(prefix) + 1:-1])] = v
@@ -542,7 +644,7 @@ def replay(case):
                 bad['C04.f2b2f'] = 'fields differ after encode + parse'
             b2 = t1.encode()
             symbolic_positions = {int(k[2:-1]) for k in inputs if k.startswith('b[')}
-            fixture = mkx.fixture_bytes(*FILES[params['name']][:2])
+            fixture = file_bytes(params['name'])
             struct_diff = [i for i in range(min(len(b1), len(fixture)))
                            if i not in symbolic_positions and b1[i] != fixture[i]]
             if b2 != b1 or len(b1) != len(data) or struct_diff:
